@@ -7,3 +7,29 @@ Theorem C10_law_checker_sound :
   forall (sc : scene) (l : law), check_scene sc l = true ->
   forall p, scene_clear sc p -> eval_law l (member sc p) = true.
 Proof. exact check_scene_sound. Qed.
+
+From Coq Require Import ZArith.
+From GB Require Import Num NumQ NumB Event Outcome FillQueue BoolOp Cert ExactLink.
+
+(** the second clause: instantiations that are both in the exact class on an input (their
+    result, converted exactly, coincides with the exact instance's result) agree with each
+    other coordinate for coordinate *)
+Theorem C10_exact_agree :
+  forall cfg fuel op
+    (A32 B32 : list (FillQueue.polygon NB32)) (A64 B64 : list (FillQueue.polygon NB64))
+    (AQ BQ : list (FillQueue.polygon NQ)),
+  exact_run NB32 (conv_B 24 128) cfg fuel A32 B32 AQ BQ op ->
+  exact_run NB64 (conv_B 53 1024) cfg fuel A64 B64 AQ BQ op ->
+  res_eqv (qres NB32 (conv_B 24 128) cfg fuel A32 B32 op) (qres NB64 (conv_B 53 1024) cfg fuel A64 B64 op).
+Proof. exact exact_agree. Qed.
+
+(** non-vacuity: a run through the sweep (T-junction on a vertical edge) is in the exact
+    class of both instantiations — evaluated on the bit-exact binary32 / binary64 models *)
+Example C10_exact_class_inhabited :
+  match qres NB64 (conv_B 53 1024) release 1000 (F2_Af 53 1024) (F2_Bf 53 1024) Union,
+        qres NB32 (conv_B 24 128) release 1000 (F2_Af 24 128) (F2_Bf 24 128) Union,
+        qres NQ conv_Q release 1000 F2_A F2_B Union with
+  | Some r64, Some r32, Some rq => (mp_eqvb r64 rq && mp_eqvb r32 rq && Nat.eqb (length rq) 2)%bool
+  | _, _, _ => false
+  end = true.
+Proof. exact F2_union_exact_class_computed. Qed.
